@@ -39,6 +39,13 @@ def gen_preempt(rng, span=1500, maxb=3):
     return sorted(rng.sample(range(1, span), b))
 
 
+def gen_preempt_at(rng, names, maxn=40, p=0.5, maxb=3):
+    """Targeted preemption: at the n-th executed line of the named execnet functions."""
+    if rng.random() > p:
+        return []
+    return [[rng.choice(names), rng.randrange(1, maxn)] for _ in range(rng.randrange(1, maxb + 1))]
+
+
 TRANSPORTS = ["popen", "bare", "socket", "proxy"]
 
 
